@@ -57,3 +57,17 @@ Theorem C12_concrete : forall env requestor maxlen (ops : list op), forallb lega
   /\ after_eof (ctl (run_script env requestor maxlen ops)) = true.
 Proof. intros. split; [apply script_inv|apply script_eof]; assumption. Qed.
 Print Assumptions C12_concrete.
+
+(* ---- the peer resets the connection while the provider still has something to write ------------
+   (its A-ABORT in answer to the very bytes that were invalid): the kernel refuses the write.  Over
+   Model.ProviderW / Model.Fsm.cstepw — every script, whether and whenever writes are refused: the loop
+   never dies (first conjunct of inv_statew), and a refused write is followed, in the next iteration,
+   by rest with the local user told (after_failed_write). *)
+From PND Require Import Model.ProviderW Proofs.FsmWProofs Proofs.ProviderWProofs.
+
+Theorem C12_survives_refused_writes : forall strict env requestor maxlen (ops : list wop),
+  forallb legal_wop ops = true ->
+  inv_statew (ctl (run_scriptw strict env requestor maxlen ops)) = true
+  /\ after_failed_write (ctl (run_scriptw strict env requestor maxlen ops)) = true.
+Proof. intros strict env requestor maxlen ops H. destruct (scriptw_inv strict env requestor maxlen ops H) as [A [B _]]. split; assumption. Qed.
+Print Assumptions C12_survives_refused_writes.
